@@ -1,3 +1,3 @@
 From Coq Require Import ExtrOcamlBasic.
 From ChibiV Require Import Common.ExtractBase C02.Model.
-Extraction "model.ml" ext_base mark gc sweep marked_addrs heap_of_list heap_ok layout_of slots_of hfind mkspec mklayout mkobj.
+Extraction "model.ml" ext_base mark gc sweep marked_addrs heap_of_list heap_ok ptr_ok layout_of slots_of hfind mkspec mklayout mkobj.
